@@ -57,6 +57,7 @@ type gfCase struct {
 	single bool // one cff-tagged flow file: produces a GF line
 	// result
 	exit                       int
+	tmpLeft                    int // entries cff left behind in its TMPDIR
 	output                     string
 	created, modified, deleted []string
 	err                        error
@@ -216,7 +217,14 @@ func runGF(cfg *config, o *out) error {
 			return
 		}
 		args := append(append([]string{}, c.flags...), "./p")
-		c.exit, c.output = runCff(root, bin, args...)
+		tmp := filepath.Join(childTmp, fmt.Sprintf("gf%02d", i))
+		if c.err = os.MkdirAll(tmp, 0o755); c.err != nil {
+			return
+		}
+		c.exit, c.output = runCffTmp(tmp, root, bin, args...)
+		if left, err := os.ReadDir(tmp); err == nil {
+			c.tmpLeft = len(left)
+		}
 		after, err := snapshot(root)
 		if err != nil {
 			c.err = err
@@ -237,10 +245,16 @@ func runGF(cfg *config, o *out) error {
 			}
 		}
 		sort.Strings(inputs)
-		fsLines = append(fsLines, fmt.Sprintf("FS %s pkg=p inputs=%s flags=%s exit=%d created=%s modified=%s deleted=%s",
+		fsLines = append(fsLines, fmt.Sprintf("FS %s pkg=p inputs=%s flags=%s exit=%d created=%s modified=%s deleted=%s tmp=%d",
 			c.id, joinOrDash(inputs, ","), joinOrDash(c.flags, ";"), c.exit,
-			joinOrDash(c.created, ","), joinOrDash(c.modified, ","), joinOrDash(c.deleted, ",")))
+			joinOrDash(c.created, ","), joinOrDash(c.modified, ","), joinOrDash(c.deleted, ","), c.tmpLeft))
 
+		if len(c.modified) != 0 || len(c.deleted) != 0 || c.tmpLeft != 0 {
+			// cff changed or removed a file that existed before, or left a
+			// file in the temp dir: worth a note, whatever the model says.
+			xLines = append(xLines, fmt.Sprintf("N FS %s exit=%d modified=%s deleted=%s tmp=%d",
+				c.id, c.exit, joinOrDash(c.modified, ","), joinOrDash(c.deleted, ","), c.tmpLeft))
+		}
 		if c.single {
 			in := c.files[0]
 			got := "none"
@@ -257,7 +271,7 @@ func runGF(cfg *config, o *out) error {
 			}
 			if got != want || c.exit != 0 || len(c.modified) != 0 || len(c.deleted) != 0 {
 				xLines = append(xLines, fmt.Sprintf("X GF %s expected %s got %s exit=%d modified=%v deleted=%v output=%q",
-					in.name, want, got, c.exit, c.modified, c.deleted, c.output))
+					in.name, want, got, c.exit, c.modified, c.deleted, strings.ReplaceAll(c.output, cfg.scratch, "$SCRATCH")))
 			}
 		}
 	}
